@@ -63,13 +63,26 @@ def r07_1(ctx: Ctx):
         return [ctx.ob("R07.1", f, f.node, status=INCONCLUSIVE, detail="cannot find the loop over the parents of the seeds mapping", construct="outer-loop")]
     deme_v = outer[0].target.id
     cand_v = f"{seeds_p}[{deme_v}]"
-    inner = [n for n in ast.walk(outer[0]) if isinstance(n, ast.For) and n is not outer[0] and canon(n.iter, defs) == f"{cand_v}.individuals" and isinstance(n.target, ast.Name)]
+    def _cand_loop(n):
+        """(loop variable holding the candidate) if `n` iterates exactly the keyed deme's candidates, else None"""
+        it, tg = n.iter, n.target
+        if isinstance(it, ast.Call) and norm(it.func) == "enumerate" and it.args and isinstance(tg, ast.Tuple) and len(tg.elts) == 2 and isinstance(tg.elts[1], ast.Name):
+            it, tg = it.args[0], tg.elts[1]
+        if isinstance(tg, ast.Name) and canon(it, defs) == f"{cand_v}.individuals":
+            return tg.id
+        return None
+
+    inner = [n for n in ast.walk(outer[0]) if isinstance(n, ast.For) and n is not outer[0] and _cand_loop(n) is not None]
     if len(inner) != 1 or not any(x is call for x in ast.walk(inner[0])):
         encl = [n for n in ast.walk(outer[0]) if isinstance(n, ast.For) and n is not outer[0] and any(x is call for x in ast.walk(n))]
         if encl:
-            return [ctx.ob("R07.1", f, encl[0], status=VIOLATION, detail=f"children are created while iterating `{norm(encl[0].iter)}`, not exactly the accepted candidates `{cand_v}.individuals` of the keyed deme (a candidate can be sprouted twice or skipped)", construct="one-per-candidate")]
+            it_ = encl[0].iter.args[0] if isinstance(encl[0].iter, ast.Call) and norm(encl[0].iter.func) == "enumerate" and encl[0].iter.args else encl[0].iter
+            partial = isinstance(it_, ast.Subscript) and isinstance(it_.slice, ast.Slice) and ".individuals" in canon(it_.value, defs)
+            filtered = isinstance(it_, (ast.ListComp, ast.GeneratorExp)) and any(g.ifs for g in it_.generators)
+            doubled = isinstance(it_, ast.BinOp) and ".individuals" in canon(it_, defs)
+            return [ctx.ob("R07.1", f, encl[0], status=VIOLATION if (partial or filtered or doubled) else INCONCLUSIVE, detail=f"children are created while iterating `{norm(encl[0].iter)}`, not exactly the accepted candidates `{cand_v}.individuals` of the keyed deme (a candidate can be sprouted twice or skipped)", construct="one-per-candidate")]
         return [ctx.ob("R07.1", f, call, status=INCONCLUSIVE, detail="child construction is not inside `for ind in candidates.individuals`", construct="inner-loop")]
-    ind_v = inner[0].target.id
+    ind_v = _cand_loop(inner[0])
     # exactly one child per candidate: the call is not inside a further loop
     deeper = [n for n in ast.walk(inner[0]) if isinstance(n, (ast.For, ast.While)) and n is not inner[0] and any(x is call for x in ast.walk(n))]
     obs.append(ctx.ob("R07.1", f, call, status=VIOLATION if deeper else OK, detail="one child per accepted candidate" if not deeper else "several children can be created per candidate (construction inside a nested loop)", construct="one-per-candidate"))
@@ -81,8 +94,20 @@ def r07_1(ctx: Ctx):
             return None
         r = _resolve(v, defs)
         ok = pred(v, r)
-        obs.append(ctx.ob("R07.1", f, v, status=OK if ok else VIOLATION, detail=f"{kw} = {want_desc}" if ok else f"child built with {kw}=`{norm(r)}`; expected {want_desc}", construct=f"kw:{kw}"))
+        wrong = (not ok) and definite.get(kw, lambda v_, r_: False)(v, r)
+        obs.append(ctx.ob("R07.1", f, v, status=OK if ok else VIOLATION if wrong else INCONCLUSIVE, detail=f"{kw} = {want_desc}" if ok else f"child built with {kw}=`{norm(r)[:80]}`; expected {want_desc}", construct=f"kw:{kw}"))
         return v
+
+    # positive evidence of a wrong argument (anything else that is not recognised is left undecided)
+    definite = {
+        "target_level": lambda v, r: isinstance(r, ast.Constant) or re.fullmatch(re.escape(deme_v) + r"\.(_?level)([-+]\d+)?", canon(v, defs)) is not None,
+        "config": lambda v, r: isinstance(r, ast.Constant) or canon(v, defs).startswith(f"{selfn}.config.levels["),
+        "metaepoch_count": lambda v, r: isinstance(r, ast.Constant),
+        "sprout_seed": lambda v, r: isinstance(r, (ast.Constant, ast.Name, ast.Attribute, ast.Subscript)),
+        "parent_deme": lambda v, r: isinstance(r, (ast.Constant, ast.Name, ast.Attribute, ast.Subscript)),
+        "new_id": lambda v, r: isinstance(r, ast.Constant) or (isinstance(r, ast.Call) and norm(r.func) == f"{selfn}._next_child_id"),
+        "config_class_to_deme_class": lambda v, r: isinstance(r, (ast.Constant, ast.Dict)),
+    }
 
     lvl = check("target_level", "parent.level + 1", lambda v, r: canon(v, defs) == f"{deme_v}.level+1")
     lvl_txt = norm(lvl) if lvl is not None else None
@@ -103,7 +128,7 @@ def r07_1(ctx: Ctx):
     add = [s for s in top if isinstance(s, ast.Expr) and isinstance(s.value, ast.Call) and norm(s.value.func) == f"{deme_v}.add_child" and [norm(a) for a in s.value.args] == [ch]]
     app = [s for s in top if isinstance(s, ast.Expr) and isinstance(s.value, ast.Call) and isinstance(s.value.func, ast.Attribute) and s.value.func.attr == "append" and [norm(a) for a in s.value.args] == [ch] and canon(s.value.func.value, defs) in (f"{selfn}._levels[{deme_v}.level+1]", f"{selfn}.levels[{deme_v}.level+1]")]
     all_add = [c for c in ast.walk(inner[0]) if isinstance(c, ast.Call) and isinstance(c.func, ast.Attribute) and c.func.attr == "add_child"]
-    all_app = [c for c in ast.walk(inner[0]) if isinstance(c, ast.Call) and isinstance(c.func, ast.Attribute) and c.func.attr == "append" and "_levels" in norm(c.func.value) or isinstance(c, ast.Call) and isinstance(c.func, ast.Attribute) and c.func.attr == "append" and norm(c.func.value).startswith(f"{selfn}.levels")]
+    all_app = [c for c in ast.walk(inner[0]) if isinstance(c, ast.Call) and isinstance(c.func, ast.Attribute) and c.func.attr == "append" and ("_levels" in canon(c.func.value, defs) or canon(c.func.value, defs).startswith(f"{selfn}.levels"))]
     obs.append(ctx.ob("R07.1", f, add[0] if add else call, status=OK if (len(add) == 1 and len(all_add) == 1) else VIOLATION, detail="child registered with its parent (unconditionally, once)" if (len(add) == 1 and len(all_add) == 1) else f"the child is not added exactly once, unconditionally, to `{deme_v}`'s children ({[norm(c) for c in all_add]})", construct="register-parent"))
     # both registrations happen on every path that leaves the construction (no early return / break / continue in between)
     if len(add) == 1 and len(app) == 1:
@@ -355,6 +380,12 @@ def r07_4(ctx: Ctx):
                 if isinstance(holder, ast.Name) and n.func.attr in ("append", "extend", "insert", "pop", "remove", "clear", "sort", "reverse"):
                     src = ctx.eff._alias_source(f, holder.id)
                     if src is not None and src.rsplit(".", 1)[-1] in ("_levels", "levels", "leaves", "_children", "children"):
+                        adefs = local_defs(f).get(holder.id, [])
+                        one_level = len(adefs) == 1 and isinstance(adefs[0], ast.Subscript) and not isinstance(adefs[0].slice, ast.Slice) and isinstance(adefs[0].value, ast.Attribute) and adefs[0].value.attr == "_levels" and is_self_attr(adefs[0].value, "_levels", f.self_name() or "self") and holder is n.func.value
+                        if one_level and f.cls is tree and f.name in ("__init__", "_do_sprout") and n.func.attr == "append":
+                            # a local name for one level's list: the same tabled growth site as self._levels[k].append(child)
+                            obs.append(ctx.ob("R07.4", f, n, detail="a level grows by append in DemeTree.__init__/_do_sprout (through a local name for that level's list)"))
+                            continue
                         obs.append(ctx.ob("R07.4", f, n, status=VIOLATION, detail=f"`{norm(n)}` mutates `{src}` through the alias `{holder.id}` in {f.short}"))
                         continue
                 if isinstance(holder, ast.Attribute) and holder.attr in ("_children", "children") and n.func.attr in ("append", "extend", "insert", "pop", "remove", "clear", "sort", "reverse"):
